@@ -207,3 +207,28 @@ for n, tiers in ((3, ["quick", "thorough"]), (5, ["quick", "thorough"]), (8, ["t
       ["echs_event_sort", "WikiSort", "InsertionSort"], kind="bounded", bound="array length == %d" % n,
       defines=["-DSORT_N=%d" % n], unwind=n + 2, tiers=tiers,
       solver=["minisat", "kissat"], timeout={"quick": 600, "thorough": 3600}, native_srcs=["instant.c"])
+
+# ------------------------------------------------------------------ C01 kernels / C17 Easter
+K = dict(solver=["minisat", "kissat"], timeout={"quick": 900, "thorough": 1800},
+         native_srcs=[x for x in LIBECHSE if x != "evrrul.c"], native_libs=["-lltdl", "-lm"])
+O("C01.k.wday", ["C01", "C16"], "h_C01k.c", "h_C01_k_wday",
+  "ymd_get_wday, get_jan01_wday, yd_get_wday, ymd_get_yd, __get_ndom, get_isowk, inc_wd equal the spec for every date 1901..2099",
+  ["ymd_get_wday", "get_jan01_wday", "yd_get_wday", "ymd_get_yd", "__get_ndom", "get_isowk", "inc_wd"], **K)
+O("C01.k.ymcw", "C01", "h_C01k.c", "h_C01_k_ymcw",
+  "__get_mcnt and ymcw_get_dom: the c-th / |c|-th last weekday w of a month, 0 when it does not exist, for all y, m, c in -5..5, w",
+  ["__get_mcnt", "ymcw_get_dom"], **K)
+O("C01.k.ycw", "C01", "h_C01k.c", "h_C01_k_ycw",
+  "ycw_get_yday: the c-th / |c|-th last weekday w of a year (53-weekday years included) for all y, c in -53..53, w",
+  ["ycw_get_yday"], **K)
+O("C01.k.ywd", "C01", "h_C01k.c", "h_C01_k_ywd",
+  "ywd_get_yday / ywd_to_md / ywd_get_jan01_hang: the date of ISO 8601 (week, weekday) incl. negative week numbers and weeks reaching into the neighbouring year",
+  ["ywd_get_yday", "ywd_to_md", "ywd_get_jan01_hang", "yd_to_md"], **K)
+O("C01.k.ywd.prevdec", "C01", "h_C01k.c", "h_C01_k_ywd",
+  "ywd_to_md for days of ISO week 1 that lie before Dec 31st of the previous year (region of known finding KF-C01-ywd-prev-december)",
+  ["ywd_get_yday", "ywd_to_md", "yd_to_md"], defines=["-DREGION_YWD_BEFORE_DEC31"], finding="KF-C01-ywd-prev-december", **K)
+O("C01.k.yd_to_md", ["C01", "C17"], "h_C01k.c", "h_C01_k_yd_to_md",
+  "yd_to_md inverts the ordinal day (positive and negative), inc_md is the successor, pack_cand/unpack_cand are inverse and fit the container",
+  ["yd_to_md", "inc_md", "pack_cand", "unpack_cand"], **K)
+O("C17.easter", ["C17", "C01"], "h_C01k.c", "h_C17_easter",
+  "easter_get_yday equals the anonymous Gregorian computus for every year 1901..2099",
+  ["easter_get_yday"], **K)
